@@ -30,6 +30,19 @@ Theorem C10_first_kind_refuted : exists a s s', Permutation s s' /\ run KFirst a
 Proof. exact first_kind_refuted. Qed.
 Print Assumptions C10_first_kind_refuted.
 
+(* 2b. short-circuiting all()/any() over a set: the result is arrangement-independent (1.), but
+       the elements on which the body was evaluated are a prefix of the iteration order -- with a
+       side-effecting body they are observable and do depend on the arrangement, unless every
+       element passes.  (The inventory marks such sites `!effects`; they need an audit entry.) *)
+Theorem C10_short_circuit_trace_refuted : exists p s s', Permutation s s' /\ ~ Permutation (all_trace p s) (all_trace p s').
+Proof. exact all_trace_refuted. Qed.
+Print Assumptions C10_short_circuit_trace_refuted.
+
+Theorem C10_short_circuit_trace_is_prefix_and_total_when_all_hold : forall p s,
+  (exists rest, s = all_trace p s ++ rest) /\ (forallb p s = true -> all_trace p s = s).
+Proof. intros p s. split; [apply all_trace_prefix|apply all_trace_total]. Qed.
+Print Assumptions C10_short_circuit_trace_is_prefix_and_total_when_all_hold.
+
 (* 3. loops over a set whose body commutes *)
 Theorem C10_commuting_loop_perm_invariant : forall (A : Type) (f : A -> N -> A),
   (forall a x y, f (f a x) y = f (f a y) x) ->
